@@ -354,6 +354,21 @@ func (w *World) Field(pkg, typ, field string) *types.Var {
 	return nil
 }
 
+// FieldOpt: Field, but nil when the struct has no such field (any more).
+func (w *World) FieldOpt(pkg, typ, field string) *types.Var {
+	n := w.Named(pkg, typ)
+	st, _ := n.Underlying().(*types.Struct)
+	if st == nil {
+		return nil
+	}
+	for i := 0; i < st.NumFields(); i++ {
+		if st.Field(i).Name() == field || nm(st.Field(i)) == field {
+			return st.Field(i)
+		}
+	}
+	return nil
+}
+
 func (w *World) Const(pkg, name string) constant.Value {
 	c, _ := w.tpkg(pkg).Scope().Lookup(name).(*types.Const)
 	if c == nil && w.ren != nil {
